@@ -704,6 +704,11 @@ func (en *Engine) localsResolver(st *State, f *Frame) func(string) (Value, bool)
 				if x.Comment == name {
 					p := val.(PtrV)
 					if sc := st.mem[p.R]; sc != nil {
+						// arrays and structs are named by their address (x.f, x[i], *x); variables that
+						// only live in memory because a closure captures them are named by their value
+						if et := x.Type().Underlying().(*types.Pointer).Elem(); !isAggType(et) {
+							return en.load(st, p, et), true
+						}
 						return p, true
 					}
 				}
@@ -739,9 +744,9 @@ func (en *Engine) havocLoopTarget(st *State, f *Frame, sc *specCtx, m SpecExpr, 
 				return
 			}
 		}
-		// a local array/struct variable (Alloc): havoc its contents
-		if v, ok := sc.locals(id.Name); ok {
-			if p, ok := v.(PtrV); ok {
+		// a local variable living in memory (Alloc): havoc its contents
+		if p, ok := localAlloc(st, f, id.Name); ok {
+			{
 				var facts []*Term
 				st.mem[p.R] = freshCell(p.R.typ, p.R.name+".l", &facts)
 				for _, fct := range facts {
@@ -755,26 +760,63 @@ func (en *Engine) havocLoopTarget(st *State, f *Frame, sc *specCtx, m SpecExpr, 
 	en.havocLvalue(st, sc, m)
 }
 
+// localAlloc finds the memory cell of a named local variable.
+func localAlloc(st *State, f *Frame, name string) (PtrV, bool) {
+	for v, val := range f.env {
+		if a, ok := v.(*ssa.Alloc); ok && a.Comment == name {
+			if p, ok := val.(PtrV); ok && st.mem[p.R] != nil {
+				return p, true
+			}
+		}
+	}
+	return PtrV{}, false
+}
+
 func (en *Engine) checkLoopFrame(st *State, f *Frame, lst *loopState, ls *LoopSpec, ord int, sc *specCtx) {
-	// every region present at loop head must be unchanged unless listed
+	// memory at the end of the body = memory at the loop head, except at the listed locations
 	listed := map[*Region]bool{}
+	exp := make(map[*Region]Cell, len(lst.mem))
+	for r, c := range lst.mem {
+		exp[r] = c
+	}
+	tmp := &State{mem: exp, bounds: st.bounds, sideSeen: map[int]bool{}, typed: st.typed, facts: st.facts}
 	for _, m := range ls.Modifies {
 		if id, ok := m.Expr.(*ast.Ident); ok {
-			if v, ok := sc.locals(id.Name); ok {
-				if p, ok := v.(PtrV); ok {
-					listed[p.R] = true
-				}
+			if p, ok := localAlloc(st, f, id.Name); ok {
+				listed[p.R] = true
 			}
 			continue
 		}
 		switch l := sc.lvalue(m.Expr).(type) {
 		case PtrV:
-			listed[l.R] = true
+			if l.R == nil || exp[l.R] == nil || st.mem[l.R] == nil {
+				continue
+			}
+			if len(l.Path) == 0 {
+				listed[l.R] = true
+				continue
+			}
+			c, _ := en.loadPath(st, en.regionCell(st, l.R), l.Path, l.R.typ)
+			tmp.mem[l.R] = en.storePath(tmp, en.regionCell(tmp, l.R), l.Path, l.R.typ, c)
 		case SliceV:
-			listed[l.R] = true
+			if l.R == nil || exp[l.R] == nil || st.mem[l.R] == nil {
+				continue
+			}
+			func() {
+				defer func() {
+					if r := recover(); r != nil {
+						if _, ok := r.(execError); !ok {
+							panic(r)
+						}
+						listed[l.R] = true // range not expressible: fall back to the whole region
+					}
+				}()
+				en.copyRange(st, tmp, l)
+			}()
 		}
 	}
-	for r, c := range lst.mem {
+	for r := range lst.mem {
+		c := tmp.mem[r]
 		if listed[r] {
 			continue
 		}
